@@ -86,11 +86,15 @@ Lemma table_float_key_refuted :
   pool_coherent pool_flt (pool_test 1 pool_flt) = false /\ pool_equiv pool_flt (pool_test 1 pool_flt) = true.
 Proof. vm_compute. repeat split; reflexivity. Qed.
 
-Definition pool_lst : list ref := [mkref (Lst [Fix 1; Fix 2]) 0].
-Lemma table_list_key_faults_refuted :
-  t_run pool_lst [] [HPut 0 1; HGet 0] = [OFault; OFault] /\
-  s_run pool_lst (pool_test 1 pool_lst) [] [HPut 0 1; HGet 0] = [OVal 1; OGet (Some 1)] /\
-  pool_hashable pool_lst = false.
+(* a list key (formerly a host fault, finding C16-hash-list-key-faults, repaired by C16-4): every operation on
+   it signals a type-error and leaves the table alone; the pool is inside the guard and the model's
+   observations are the specification's *)
+Definition pool_lst : list ref := [mkref (Lst [Fix 1; Fix 2]) 0; mkref (Fix 7) 1; mkref (Lst [Fix 1; Fix 2]) 0].
+Definition ops_lst : list hop := [HPut 0 1; HGet 0; HPut 1 5; HRem 2; HCount; HGet 1; HMap].
+Lemma table_list_key_refused :
+  t_run pool_lst [] ops_lst = [OTypeErr; OTypeErr; OVal 5; OTypeErr; ONum 1; OGet (Some 5); OEntries [(1%nat, 5)]] /\
+  s_run pool_lst (pool_test 1 pool_lst) [] ops_lst = t_run pool_lst [] ops_lst /\
+  pool_ok pool_lst (pool_test 1 pool_lst) = true.
 Proof. vm_compute. repeat split; reflexivity. Qed.
 
 (* ---- non-vacuity ------------------------------------------------------------------------------------------ *)
